@@ -20,13 +20,20 @@
 (* [panic |-> <<file, message>>]; for format, ok is the formatted text.    *)
 (*                                                                         *)
 (* The judge reads the recorded TEXT with the specification's own lexer    *)
-(* and grammar (Read): the printed text must spell exactly ToCalls(list),  *)
-(* parsing must give exactly FromProg of what the text spells, format must *)
-(* keep what the text spells and be a fixed point.  Where a text does not  *)
-(* lex into the call level the obligation is the protocol one: a list or a *)
-(* non-empty set of located errors -- errors for certain, when the text    *)
-(* has a lexical error the implementation has an Error variant for or      *)
-(* breaks the grammar -- and never a panic.                                *)
+(* and grammar (Read).  What is demanded is what the property demands:     *)
+(*  rt      the printed text lexes into the call level and DENOTES the     *)
+(*          list (FromProg(Read(text)) = list), the real parse gives       *)
+(*          exactly that, the list comes back                              *)
+(*  parse   text at the call level: the list FromProg gives, or errors     *)
+(*          when FromProg has errors; text with a lexical error the        *)
+(*          implementation has an Error variant for, or breaking the       *)
+(*          grammar: errors; otherwise a list or errors; errors are        *)
+(*          non-empty and every span lies inside the source; never a panic *)
+(*  format  call level: Ok, Read(formatted) = Read(source), and the second *)
+(*          pass returns the same text; malformed source: errors           *)
+(* Two closer agreements are counted but not demanded (registers 8-10):    *)
+(* the printed program is literally ToCalls(list); the reported error      *)
+(* sequence is literally FromProg's.                                       *)
 (*                                                                         *)
 (* Every event is judged with D = {} first; an event the strict            *)
 (* specification rejects is judged again with each single named deviation  *)
